@@ -49,11 +49,40 @@ type ccase struct {
 // ---------------------------------------------------------------------------------------------
 // generation
 
-func genCase(rng *rand.Rand, nUpd int) ccase {
+var apLayouts = []string{"reversed", "foreign-first", "foreign-last", "foreign-between", "split", "split-foreign-first"}
+
+// layoutCfg draws a session whose OPEN lays the ADD-PATH capability out in one of the other legal ways (tuples in
+// another order, tuples of families the session does not carry around the real ones, one capability instance per
+// tuple, the capability ahead of the multiprotocol capabilities) and that mostly runs a single family — IPv6 only
+// or IPv4 only — with add-path receive configured, so that path identifiers do travel.
+func layoutCfg(rng *rand.Rand) sessCfg {
+	cfg := sessgen.RandCfg(rng)
+	switch rng.IntN(5) {
+	case 0, 1: // IPv6 only
+		cfg.V4, cfg.V4MP, cfg.V6 = false, false, true
+		cfg.RecvV4 = false
+		cfg.RecvV6, cfg.OfferV6 = rng.IntN(6) != 0, rng.IntN(6) != 0
+	case 2, 3: // IPv4 only (classic or multiprotocol)
+		cfg.V6, cfg.RecvV6 = false, false
+		cfg.RecvV4, cfg.OfferV4 = rng.IntN(6) != 0, rng.IntN(6) != 0
+	default: // both
+		cfg.V4, cfg.V6 = true, true
+		cfg.RecvV4, cfg.OfferV4, cfg.RecvV6, cfg.OfferV6 = rng.IntN(4) != 0, rng.IntN(4) != 0, rng.IntN(4) != 0, rng.IntN(4) != 0
+	}
+	cfg.APLayout = apLayouts[rng.IntN(len(apLayouts))]
+	cfg.APFirst = rng.IntN(2) == 0
+	return cfg
+}
+
+func genCase(rng *rand.Rand, nUpd int, layout bool) ccase {
 	var c ccase
 	cfg := &c.Cfg
-	*cfg = sessgen.RandCfg(rng)
-	apV4 := cfg.RecvV4 && cfg.OfferV4
+	if layout {
+		*cfg = layoutCfg(rng)
+	} else {
+		*cfg = sessgen.RandCfg(rng)
+	}
+	apV4 := cfg.V4 && cfg.RecvV4 && cfg.OfferV4
 	apV6 := cfg.V6 && cfg.RecvV6 && cfg.OfferV6
 
 	u4 := gen.Universe(rng, true, 10)
@@ -291,7 +320,25 @@ func runCase(idx int, raw json.RawMessage) (res batch.Result) {
 	opts := s.Neg.SendOpts()
 	res.Count("sessions", 1)
 	sessKind := fmt.Sprintf("ebgp=%v v4mp=%v ap4=%v ap6=%v as4=%v", cfg.EBGP, cfg.V4MP, opts.AddPathIPv4, opts.AddPathIPv6, opts.AS4)
+	if cfg.APLayout != "" || !cfg.V4 {
+		sessKind += fmt.Sprintf(" families=%s add-path-capability=%s", famsOf(cfg), apLayoutText(cfg, s.MyOpen))
+	}
 	res.Seen("session_kinds", sessKind)
+	if cfg.APLayout != "" {
+		// what the remote side's OPEN really looked like, read off the OPEN that was sent
+		res.Count("sessions_other_addpath_layout", 1)
+		res.Seen("addpath_layouts", cfg.APLayout+fmt.Sprintf(",ahead-of-mp=%v", cfg.APFirst))
+		if !cfg.V4 || !cfg.V6 {
+			res.Count("sessions_single_family_"+famsOf(cfg), 1)
+		}
+		if opts.AddPathIPv4 || opts.AddPathIPv6 {
+			res.Count("sessions_other_addpath_layout_with_path_ids", 1)
+			if foreignAhead(cfg, s.MyOpen) {
+				res.Count("sessions_with_path_ids_behind_a_foreign_addpath_tuple", 1)
+				res.Count("sessions_with_path_ids_behind_a_foreign_addpath_tuple_"+famsOf(cfg), 1)
+			}
+		}
+	}
 
 	model := map[key]string{}
 	prevMult := map[key]int{}
@@ -303,7 +350,7 @@ func runCase(idx int, raw json.RawMessage) (res batch.Result) {
 		}
 		r := s.Sync()
 		if !r.OK() || r.Closed || !s.Established() {
-			res.Add("session-lost", vf.F("ebgp", cfg.EBGP), "update %d of a valid sequence: session no longer established (%v, state %s, notifications %v); UPDATE %+v", ui, r, s.State(), s.Notifications(), u)
+			res.Add("session-lost", lostFeat(cfg, s.MyOpen), "session{"+sessKind+"} update %d of a valid sequence: session no longer established (%v, state %s, notifications %v); UPDATE %+v", ui, r, s.State(), s.Notifications(), u)
 			return
 		}
 		res.Count("updates", 1)
@@ -411,6 +458,9 @@ func runCase(idx int, raw json.RawMessage) (res batch.Result) {
 				e = "-"
 			}
 			ft := vf.F("family", famOf(k.V4).String(), "encoding", e, "addpath", opts.AddPath(famOf(k.V4)))
+			if cfg.APLayout != "" {
+				ft["foreign_addpath_tuple_ahead"] = fmt.Sprint(foreignAhead(cfg, s.MyOpen))
+			}
 			if pos := attrPositions(w); !pos.ascending {
 				ft["attr_order"] = "not-ascending"
 				if pos.reach >= 0 && pos.unreach >= 0 && pos.unreach < pos.reach {
@@ -494,6 +544,59 @@ func runCase(idx int, raw json.RawMessage) (res batch.Result) {
 	return
 }
 
+func famsOf(cfg sessCfg) string {
+	switch {
+	case cfg.V4 && cfg.V6:
+		return "ipv4+ipv6"
+	case cfg.V6:
+		return "ipv6"
+	}
+	return "ipv4"
+}
+
+func carried(cfg sessCfg, f wire.Family) bool {
+	return (f == wire.IPv4Unicast && cfg.V4) || (f == wire.IPv6Unicast && cfg.V6)
+}
+
+// foreignAhead: in the OPEN that was sent, an ADD-PATH tuple of a family the session does not carry stands in front
+// of the tuple of a family for which path identifiers travel towards bio-rd.
+func foreignAhead(cfg sessCfg, o *wire.Open) bool {
+	if o == nil {
+		return false
+	}
+	foreign := false
+	for _, t := range o.AddPath() {
+		switch {
+		case !carried(cfg, t.Family):
+			foreign = true
+		case foreign && t.Mode&2 != 0 && ((t.Family == wire.IPv4Unicast && cfg.AddPathV4()) || (t.Family == wire.IPv6Unicast && cfg.AddPathV6())):
+			return true
+		}
+	}
+	return false
+}
+
+func apLayoutText(cfg sessCfg, o *wire.Open) string {
+	if o == nil {
+		return "?"
+	}
+	var parts []string
+	for _, c := range o.Caps {
+		if c.Code != wire.CapCodeAddPath {
+			continue
+		}
+		var ts []string
+		for v := c.Value; len(v) >= 4; v = v[4:] {
+			ts = append(ts, fmt.Sprintf("%d/%d:%d", uint16(v[0])<<8|uint16(v[1]), v[2], v[3]))
+		}
+		parts = append(parts, "["+strings.Join(ts, " ")+"]")
+	}
+	if len(parts) == 0 {
+		return "none"
+	}
+	return strings.Join(parts, "")
+}
+
 type attrPos struct {
 	ascending      bool
 	reach, unreach int // position of MP_REACH_NLRI / MP_UNREACH_NLRI in the encoded attribute list, -1 absent
@@ -514,6 +617,18 @@ func attrPositions(w *wire.Update) attrPos {
 		}
 	}
 	return p
+}
+
+func lostFeat(cfg sessCfg, o *wire.Open) map[string]string {
+	ft := vf.F("ebgp", cfg.EBGP)
+	if cfg.APLayout != "" {
+		ft["addpath_capability"] = "one-capability"
+		if strings.HasPrefix(cfg.APLayout, "split") {
+			ft["addpath_capability"] = "one-instance-per-tuple"
+		}
+		ft["foreign_tuple_ahead"] = fmt.Sprint(foreignAhead(cfg, o))
+	}
+	return ft
 }
 
 func famOf(v4 bool) wire.Family {
@@ -559,24 +674,35 @@ func main() {
 		return
 	}
 	vf.Main("C20", "exploration", func(r *vf.Run) {
-		r.Rule("one session per case: iBGP/eBGP × {IPv4, IPv4+IPv6, IPv4 multiprotocol (+IPv6)} × add-path receive configured per family × add-path send offered per family × capability 65 (incl. a 4-octet peer AS), all negotiated in a real OPEN exchange; then 20 valid UPDATEs over 10 IPv4 + 10 IPv6 adversarial prefixes: 1–12 NLRI per family in classic NLRI / MP_REACH (IPv4 or IPv6), withdrawals in the classic field / MP_UNREACH, announce and withdraw mixed in one message, classic IPv4 + MP IPv6 in one message, distinct / repeated / zero path identifiers under add-path, withdrawals of absent prefixes and of unknown identifiers; attributes ORIGIN, AS_PATH (sequence+set, 2/4-octet), NEXT_HOP or MP next hop, MED, LOCAL_PREF (iBGP), ATOMIC_AGGREGATE, COMMUNITIES (one unique per message), LARGE_COMMUNITIES, ORIGINATOR_ID+CLUSTER_LIST (iBGP), an unknown optional transitive attribute; half of the messages encode their attributes out of ascending type order (MP_REACH/MP_UNREACH first or last in either mutual order, all reversed, or shuffled), so MP_UNREACH_NLRI precedes MP_REACH_NLRI of the same or the other family in part of the messages that carry both. After every UPDATE the Adj-RIB-In dumps of both families are compared with the model. distinct_nontrivial = UPDATEs that announce ≥ 2 NLRI of one family with path identifiers on an add-path session")
+		r.Rule("one session per case: iBGP/eBGP × {IPv4, IPv4+IPv6, IPv4 multiprotocol (+IPv6)} × add-path receive configured per family × add-path send offered per family × capability 65 (incl. a 4-octet peer AS), all negotiated in a real OPEN exchange; then 20 valid UPDATEs over 10 IPv4 + 10 IPv6 adversarial prefixes: 1–12 NLRI per family in classic NLRI / MP_REACH (IPv4 or IPv6), withdrawals in the classic field / MP_UNREACH, announce and withdraw mixed in one message, classic IPv4 + MP IPv6 in one message, distinct / repeated / zero path identifiers under add-path, withdrawals of absent prefixes and of unknown identifiers; attributes ORIGIN, AS_PATH (sequence+set, 2/4-octet), NEXT_HOP or MP next hop, MED, LOCAL_PREF (iBGP), ATOMIC_AGGREGATE, COMMUNITIES (one unique per message), LARGE_COMMUNITIES, ORIGINATOR_ID+CLUSTER_LIST (iBGP), an unknown optional transitive attribute; half of the messages encode their attributes out of ascending type order (MP_REACH/MP_UNREACH first or last in either mutual order, all reversed, or shuffled), so MP_UNREACH_NLRI precedes MP_REACH_NLRI of the same or the other family in part of the messages that carry both. A second block (30 % more sessions, 12 UPDATEs each) varies how the remote OPEN lays out its ADD-PATH capability — tuples reversed, tuples of families the session does not carry (the other unicast family, IPv4 multicast, AFI 25) in front of / between / behind the real ones, one capability instance per tuple, the capability ahead of the multiprotocol capabilities — mostly on single-family sessions (IPv6 only, IPv4 only) with add-path receive configured; add-path is on exactly when the RFC 7911 reading of the two OPENs says so, and path identifiers are sent accordingly. After every UPDATE the Adj-RIB-In dumps of both families are compared with the model. distinct_nontrivial = UPDATEs that announce ≥ 2 NLRI of one family with path identifiers on an add-path session")
 		r.Assume("LOCAL_PREF of paths learned over eBGP is not compared (the statement does not say which value they carry)",
 			"within one UPDATE the announced and withdrawn (prefix, path id) sets are disjoint, and without add-path a prefix occurs at most once per message",
 			"Adj-RIB-In content is read through the FSM's own adjRIBIn object (hook VerifFSMRIBs → Dump), the object BGPServer.GetRIBIn returns")
 		var cases []any
+		nLayout := 0
 		if raw, ok := r.Replaying(); ok {
 			cases = []any{raw}
 		} else {
 			n := r.N(300, 15000)
 			for i := 0; i < n; i++ {
-				cases = append(cases, genCase(r.RandN("c20", i), 20))
+				cases = append(cases, genCase(r.RandN("c20", i), 20, false))
+			}
+			nLayout = r.N(90, 4500)
+			for i := 0; i < nLayout; i++ {
+				cases = append(cases, genCase(r.RandN("c20-layout", i), 12, true))
 			}
 		}
 		batch.Drive(r, batch.Config{Name: "c20", PerChild: 150, Workers: 8}, cases, nil)
 		r.Eval(int(r.Counter("updates")))
 		if _, ok := r.Replaying(); !ok {
 			r.Require("sessions", int64(len(cases)*9/10))
-			r.Require("updates", int64(len(cases)*15))
+			r.Require("updates", int64(len(cases)*10))
+			r.Require("sessions_other_addpath_layout", int64(nLayout*9/10))
+			r.Require("sessions_other_addpath_layout_with_path_ids", int64(nLayout/2))
+			r.Require("sessions_with_path_ids_behind_a_foreign_addpath_tuple", int64(nLayout/6))
+			r.Require("sessions_with_path_ids_behind_a_foreign_addpath_tuple_ipv6", int64(nLayout/40))
+			r.Require("sessions_with_path_ids_behind_a_foreign_addpath_tuple_ipv4", int64(nLayout/40))
+			r.Require("sessions_single_family_ipv6", int64(nLayout/5))
 			r.Require("updates_with_several_path_ids", 100)
 			r.Require("updates_attrs_not_in_type_order", int64(len(cases)*3))
 			r.Require("updates_mp_unreach_before_mp_reach", int64(len(cases)/20))
